@@ -71,6 +71,7 @@ type Carrier struct {
 	hdr        metadata.MD
 	hdrReady   bool
 	handlerEnd bool
+	cliSending int // network-client SendMsg calls in progress
 	handlerErr error
 	failed     error // transport failure: both ends fail at once, frames are lost
 	cliSawEnd  bool
@@ -267,6 +268,13 @@ func (c *Carrier) cliSend(m proto.Message, desc func(proto.Message) tr.E) error 
 func (c *Carrier) cliSendLocked(m proto.Message, desc func(proto.Message) tr.E) (string, int64, error) {
 	c.mu.Lock()
 	defer c.mu.Unlock()
+	// gRPC's contract for a client stream: no two SendMsg at once, and no CloseSend while a SendMsg is in
+	// progress (a SendMsg waiting for transport capacity is in progress). The carrier reports violations.
+	if c.cliSending > 0 {
+		c.emit("car", tr.E{"what": "contract", "detail": "concurrent-sends"})
+	}
+	c.cliSending++
+	defer func() { c.cliSending-- }()
 	for {
 		if err := c.cliCtx.Err(); err != nil {
 			return "", 0, ctxStatus(err)
@@ -377,6 +385,9 @@ func recvEvent(p *pipe, raw bool) tr.E {
 func (c *Carrier) cliCloseSend() error {
 	c.mu.Lock()
 	defer c.mu.Unlock()
+	if c.cliSending > 0 {
+		c.emit("car", tr.E{"what": "contract", "detail": "closesend-during-send"})
+	}
 	if !c.up.closed {
 		c.up.closed = true
 		c.emit("car", tr.E{"what": "closeSend"})
